@@ -413,6 +413,21 @@ def rtcreateModel (name : String) (np : Nat) (m : MResponse) : String :=
   let seen := if wait.isEmpty then normalize m else cache
   s!"code={code} after={showMTopics (filterMetadata (some [name]) seen).topics}"
 
+open KV.Discover KV.RoundTrip in
+/-- the pool's first refresh fails in the given way, the next one is answered: can metadata requests be served again? -/
+def recoverModel (kind : String) : String :=
+  let m0 : MResponse := ⟨0, [⟨0, "b0", 9092, ""⟩], "", 0, [⟨0, "t", false, [⟨0, 0, 0, [], [], []⟩]⟩]⟩
+  let first : List DEvent := match kind with
+    | "dialfail" => [.connFail]
+    | "stall" => [.tick, .timeout]
+    | _ => [.tick, .reqError]
+  match run discoverExits {} (first ++ [.tick, .answer m0]) with
+  | some s =>
+    let thenOK := s.alive && (match metadataDecision s.pool ⟨some ["t"], false⟩ with | .fromCache _ => true | _ => false)
+    let prodOK := s.alive && (s.pool.layout.topics.lookup "t").isSome
+    s!"then={if thenOK then "ok" else "err"} produce={if prodOK then "ok" else "err"}"
+  | none => "then=err produce=err"
+
 /-! ### dispatcher -/
 
 def kv (pfx : String) (s : String) : Option String :=
@@ -497,6 +512,10 @@ def step (line : String) : String :=
         -- monitor: the topic the cluster now has is what the cache reports right after CreateTopics returned
         answer want (impl == want)
       | _, _ => "bad-op"
+    | ["recover", _, first] =>
+      match kv "first=" first with
+      | some k => answer (recoverModel k) (impl == "then=ok produce=ok")
+      | none => "bad-op"
     | ["follow", _, faults] =>
       match kv "faults=" faults with
       | some fs => answer (followModel (splitD fs ",")) (impl == "within=1 gap=1")
